@@ -306,3 +306,12 @@ Proof. exact w_example_clean. Qed.
 
 Example C09_example_api_buildable : api_buildable ex_api.
 Proof. exact w_example_api_buildable. Qed.
+
+(* canonical order of descriptors (foreign first): the interleaved section decodes to the same getters as the reordered
+   one and re-encodes into the reordered one *)
+Example C09_order_example :
+  supported interleaved /\
+  s_descs (expected interleaved) = s_descs (expected reordered) /\ s_other (expected interleaved) = s_other (expected reordered) /\
+  ser_section_nocrc interleaved <> ser_section_nocrc reordered /\
+  firstn 30 (fst (update_data (expected interleaved))) = ser_section_nocrc reordered.
+Proof. exact w_order_example. Qed.
